@@ -212,7 +212,7 @@ pub fn run(ctx: &Ctx) -> i32 {
     a10.push(Ev::Ud(4));
     let mut a13: Vec<Ev> = base.to_vec();
     a13.extend([Ev::Ud(0), Ev::Ud(1), Ev::Ud(2), Ev::Ud(3)]);
-    let plans: Vec<(&str, Vec<Ev>, usize)> = if thorough { vec![("histories-13sym-depth7", a13.clone(), 7), ("histories-10sym-depth8", a10.clone(), 8)] } else { vec![("histories-10sym-depth6", a10.clone(), 6), ("histories-13sym-depth5", a13.clone(), 5)] };
+    let plans: Vec<(&str, Vec<Ev>, usize)> = if thorough { vec![("histories-13sym-depth7", a13.clone(), 7), ("histories-10sym-depth8", a10.clone(), 8)] } else { vec![("histories-10sym-depth7", a10.clone(), 7), ("histories-13sym-depth5", a13.clone(), 5)] };
     let mut want = Want::structure_only();
     want.pal_probes = vec![0, 1, 2, 3];
     want.name_probes = vec!["t0".into(), "p0".into(), "".into()];
